@@ -12,7 +12,7 @@ CONSTANTS
   CopyDst = {""}
   AttrNodes = {"a"}
   AttrKeys = {"k"}
-  MaxNodes = 8
+  MaxNodes = 7
   Depth = 4
   Emit = TRUE
 INVARIANTS WF LastWins SelectGet SelectAll AttrFunctional Post Leaf
